@@ -229,14 +229,28 @@ def opChecks (o : Opcode) (l : TypeDef) (lv : Option Value) (T1 : TState) (r : T
     chk .kindUnion (unionOk l.returns r.returns) ++
       chk .nan (!(isArith o && (arithDef o l r false).kind.prim.float))
 
+/-- the paths at which `Kind::remove` is proved sound: the root (C19.remove_root_sound) and a single
+    field of an exact object kind with key-sorted maps whose `Infinite` unknowns are all `any`
+    (VrlProofs/Lemmas/KindRemoveField.lean). Deeper paths, indices and kinds with alternatives are in
+    the witnessed C19 classes `D_remove_*` / `D_compact_*`. -/
+def delPathOk (K : Kind) (p : Path) : Bool :=
+  match p with
+  | [] => true
+  | [.field _] => K.isObject && K.SortedK && !K.hasNonAnyInf
+  | _ => false
+
+/-- a `compact` flag the compiler does not know: both results are merged -/
+def delUnionChecks (T : TState) (isMeta : Bool) (p : Path) (compact : Option Bool) : List Chk :=
+  match compact with
+  | some _ => []
+  | none =>
+    chk .kindUnion (unionOk (deleteExt T isMeta p false).target (deleteExt T isMeta p true).target) ++
+    chk .kindUnion (unionOk (deleteExt T isMeta p false).metadata (deleteExt T isMeta p true).metadata)
+
 /-- the external environment after `del` on an external path -/
 def delExtChecks (T : TState) (isMeta : Bool) (p : Path) (compact : Option Bool) : List Chk :=
-  chk .kindRemove p.isEmpty ++ chk .kindAt (atOk (T.extKind isMeta) p) ++
-  (match compact with
-   | some _ => []
-   | none =>
-     chk .kindUnion (unionOk (deleteExt T isMeta p false).target (deleteExt T isMeta p true).target) ++
-     chk .kindUnion (unionOk (deleteExt T isMeta p false).metadata (deleteExt T isMeta p true).metadata))
+  chk .kindRemove (delPathOk (T.extKind isMeta) p) ++ chk .kindAt (atOk (T.extKind isMeta) p) ++
+    delUnionChecks T isMeta p compact
 
 mutual
   /-- the failed side conditions of `typeInfo e T` (same traversal, same states) -/
